@@ -656,6 +656,22 @@ class SimulatedBroker(Broker):
         dt : `pd.Timestamp`
             The current timestamp to update the Broker to.
         """
+        # A timestamp earlier than the clock of the broker, of one of its
+        # portfolios or of one of their positions would only be rejected
+        # part-way through the update. Refuse it here, before the broker
+        # clock, the positions or the open order queues have been touched.
+        latest_dt = self.current_dt
+        for portfolio in self.portfolios.values():
+            latest_dt = max(latest_dt, portfolio.current_dt)
+            for position in portfolio.pos_handler.positions.values():
+                latest_dt = max(latest_dt, position.current_dt)
+        if dt < latest_dt:
+            raise ValueError(
+                "Update datetime (%s) is earlier than the current "
+                "datetime (%s) of the broker account. Cannot update "
+                "the broker." % (dt, latest_dt)
+            )
+
         self.current_dt = dt
 
         # Update portfolio asset values
